@@ -657,9 +657,17 @@ def run(ck):
     indep = {"CRC32": lambda d: zlib.crc32(d) & 0xFFFFFFFF, "CRC32_MPEG": mpeg2, "CRC16_XMODEM": lambda d: binascii.crc_hqx(d, 0)}
     names = sorted(m.name for m in CRC_ALGORITHMS)
     s.expect(names == sorted(indep), ("crc-names",), "CRC_ALGORITHMS no longer offers exactly CRC32, CRC32_MPEG, CRC16_XMODEM", names)
-    gen_names = sorted((ck.generated_meta.get("CrcTable", {}).get("entries") or {}).keys())
-    if gen_names != names:
-        raise Infra(f"generated CRC table {gen_names} disagrees with the live CRC_ALGORITHMS {names} (extractor trouble)")
+    crc_meta = ck.generated_meta.get("CrcTable", {})
+    if crc_meta.get("error"):
+        # the generator could not read the table: it emitted an empty (opaque) one, `crc_table_standard` is a broken obligation and
+        # the oracle below searches the real code for a failing input - a verdict, never an infrastructure error
+        ck.extra.setdefault("generated_fallbacks", {})["CrcTable.table"] = crc_meta["error"]
+    else:
+        gen_rows = {k: (int(v["polynomial"], 16), int(v["initial_value"], 16), int(v["final_xor"], 16), v["reverse"])
+                    for k, v in (crc_meta.get("entries") or {}).items()}
+        live_rows = {m.name: (c.polynomial, c.initial_value, c.final_xor, c.reverse) for m, c in CRC_ALGORITHMS.items()}
+        if gen_rows != live_rows:
+            raise Infra(f"generated CRC table {gen_rows} disagrees with the live CRC_ALGORITHMS {live_rows} (extractor read a wrong value)")
     for name in names:
         alg = getattr(CrcAlg, name)
         for n in list(range(0, 71)) + sampled[:8]:
